@@ -51,29 +51,7 @@ func a2Call(p *svc.ShowPayload, result *svc.ShowResult) (got *svc.ShowPayload, w
 	}
 	resp := &http.Response{StatusCode: w.status, Header: w.h, Body: io.NopCloser(strings.NewReader(""))}
 	decode := client.DecodeShowResponse(func(*http.Response) goahttp.Decoder {
-		return stubDecoder{func(v any) error {
-			// encoding/json between the response body structs (same JSON names)
-			var kind string
-			var addr *string
-			var n *int
-			switch b := w.encoded[0].(type) {
-			case *server.ShowOKResponseBody:
-				kind, addr, n = b.Kind, b.Addr, b.N
-			case *server.ShowAcceptedResponseBody:
-				kind, addr, n = b.Kind, b.Addr, b.N
-			case *server.ShowCreatedResponseBody:
-				kind, addr, n = b.Kind, b.Addr, b.N
-			}
-			switch d := v.(type) {
-			case *client.ShowOKResponseBody:
-				d.Kind, d.Addr, d.N = &kind, addr, n
-			case *client.ShowAcceptedResponseBody:
-				d.Kind, d.Addr, d.N = &kind, addr, n
-			case *client.ShowCreatedResponseBody:
-				d.Kind, d.Addr, d.N = &kind, addr, n
-			}
-			return nil
-		}}
+		return stubDecoder{func(v any) error { return verifJSONCopy(v, w.encoded[0]) }}
 	}, false)
 	out, derr = decode(resp)
 	return
